@@ -1,6 +1,7 @@
 (* usage: htmlser_model <fix_c2 0|1><fix_ns 0|1>      (e.g. 00 = the code as it is, 11 = both repairs)
    one case per line (same tree description as harness/src/bin/htmlser.rs):
      T <scripting> <node>      -> f1 TAB f2 TAB f3 TAB per-element list   (fields 1,2,3,6 of the harness)
+     Q <scripting> <cmp> <scope> {call} -> the Serializer trait driven directly: hex | !
      W <attr> <hex bytes>      -> write_escaped_impl on the BYTES: hex | ! | F
      S <attr> <hex utf-8>      -> escape_spec on the CODE POINTS: hex of utf-8
      U <attr> <hex utf-8>      -> unescape on the CODE POINTS: N | S<hex of utf-8> *)
@@ -81,6 +82,44 @@ let () =
       let els = List.rev (elements scripting root []) in
       print_endline (String.concat "\t" [ser scripting IncludeNode root; ser scripting (ChildrenOnly None) root; f3;
                                          if els = [] then "-" else String.concat "," els])
+    | "Q" :: s :: cmp :: sc :: rest ->
+      (* Q <scripting> <create_missing_parent> <scope: i | n | ns:hexname> {call}
+         calls: s <ns> <name> <nattrs> {<ns> <name> <value>} | e <ns> <name> | t <x> | c <x> | d <x> | p <x> <y> *)
+      let ws = Array.of_list rest in
+      let i = ref 0 in
+      let calls = ref [] in
+      while !i < Array.length ws do
+        let k = ws.(!i) in
+        incr i;
+        (match k with
+         | "s" ->
+           let ns = ns_of ws.(!i) in
+           let name = bytes_of ws.(!i + 1) in
+           let na = int_of_string ws.(!i + 2) in
+           i := !i + 3;
+           let attrs = ref [] in
+           for _ = 1 to na do
+             attrs := ((ns_of ws.(!i), bytes_of ws.(!i + 1)), bytes_of ws.(!i + 2)) :: !attrs;
+             i := !i + 3
+           done;
+           calls := CStart ((ns, name), List.rev !attrs) :: !calls
+         | "e" -> calls := CEnd (ns_of ws.(!i), bytes_of ws.(!i + 1)) :: !calls; i := !i + 2
+         | "t" -> calls := CText (bytes_of ws.(!i)) :: !calls; incr i
+         | "c" -> calls := CComment (bytes_of ws.(!i)) :: !calls; incr i
+         | "d" -> calls := CDoctype (bytes_of ws.(!i)) :: !calls; incr i
+         | "p" -> calls := CPI (bytes_of ws.(!i), bytes_of ws.(!i + 1)) :: !calls; i := !i + 2
+         | _ -> failwith "bad call")
+      done;
+      let scope = match sc with
+        | "i" -> IncludeNode
+        | "n" -> ChildrenOnly None
+        | x -> (match String.split_on_char ':' x with
+                | [n; h] -> ChildrenOnly (Some (ns_of n, bytes_of h))
+                | _ -> failwith "bad scope") in
+      print_endline (match ser_calls v { scripting_enabled = (s = "1"); traversal_scope = scope;
+                                         create_missing_parent = (cmp = "1") } (List.rev !calls) with
+        | Some b -> hexs (List.map int_of_n b)
+        | None -> "!")
     | ["W"; m; h] ->
       print_endline (match write_escaped_impl v (m = "1") (bytes_of h) with
         | WOk b -> hexs (List.map int_of_n b) | WPanic -> "!" | WFuel -> "F")
